@@ -305,22 +305,20 @@ theorem byteswapLoop_mirror (sizes : List Nat) (total : Nat) (htot : total = 8 *
 
 
 theorem byteswap_core (l : Bits) (sizes : List Nat) (a b : Nat) (repeat_ : Bool) (hb : b ≤ l.length)
-    (hfit : repeat_ = true ∨ a + 8 * sizes.sum ≤ l.length) (h0 : 8 * sizes.sum ≠ 0) :
+    (h0 : 8 * sizes.sum ≠ 0) :
     byteswapLoop .lsb0 sizes (8 * sizes.sum)
-        (Py.rangeLen ((a : Int) + (8 * sizes.sum : Nat)) (((if repeat_ then b else a + 8 * sizes.sum : Nat) : Int) + 1) (8 * sizes.sum : Nat))
+        (Py.rangeLen ((a : Int) + (8 * sizes.sum : Nat)) (((if repeat_ then b else min (a + 8 * sizes.sum) b : Nat) : Int) + 1) (8 * sizes.sum : Nat))
         l ((a : Int) + (8 * sizes.sum : Nat)) 0
     = (byteswapLoop .msb0 sizes (8 * sizes.sum)
-        (Py.rangeLen ((a : Int) + (8 * sizes.sum : Nat)) (((if repeat_ then b else a + 8 * sizes.sum : Nat) : Int) + 1) (8 * sizes.sum : Nat))
+        (Py.rangeLen ((a : Int) + (8 * sizes.sum : Nat)) (((if repeat_ then b else min (a + 8 * sizes.sum) b : Nat) : Int) + 1) (8 * sizes.sum : Nat))
         l.reverse ((a : Int) + (8 * sizes.sum : Nat)) 0).map fun r => (r.1.reverse, r.2) := by
   generalize htot : 8 * sizes.sum = total at *
-  generalize hfin : (if repeat_ then b else a + total : Nat) = finalbit
+  generalize hfin : (if repeat_ then b else min (a + total) b : Nat) = finalbit
   have hfinle : finalbit ≤ l.length := by
     rw [← hfin]
     cases repeat_ with
     | true => simpa using hb
-    | false => rcases hfit with h | h
-               · cases h
-               · simpa using h
+    | false => simp only [Bool.false_eq_true, if_false]; omega
   have hc : ((a : Int) + (total : Int)) = ((a + total : Nat) : Int) := by omega
   rw [hc]
   generalize hit : Py.rangeLen ((a + total : Nat) : Int) ((finalbit : Int) + 1) (total : Int) = iters
@@ -337,9 +335,7 @@ theorem byteswap_core (l : Bits) (sizes : List Nat) (a b : Nat) (repeat_ : Bool)
       omega
   exact byteswapLoop_mirror sizes total htot.symm iters l (a + total) 0 hcond
 
-theorem byteswapOp_mirror (l : Bits) (fmt : Option (List Int)) (start stop : Option Int) (repeat_ : Bool)
-    (hfit : repeat_ = true ∨ ∀ a b zs, validateSlice l.length start stop = .ok (a, b) → fmt = some zs →
-      a + 8 * (zs.map Int.toNat).sum ≤ l.length) :
+theorem byteswapOp_mirror (l : Bits) (fmt : Option (List Int)) (start stop : Option Int) (repeat_ : Bool) :
     byteswapOp .lsb0 l fmt start stop repeat_
       = (byteswapOp .msb0 l.reverse fmt start stop repeat_).map fun r => (r.1, r.2.reverse) := by
   unfold byteswapOp
@@ -350,40 +346,36 @@ theorem byteswapOp_mirror (l : Bits) (fmt : Option (List Int)) (start stop : Opt
     obtain ⟨a, b⟩ := ab
     have hb := validateSlice_bounds _ _ _ _ _ h
     simp only []
-    have main : ∀ sizes : List Nat, (repeat_ = true ∨ a + 8 * sizes.sum ≤ l.length) →
+    have main : ∀ sizes : List Nat,
         (if 8 * sizes.sum = 0 then (Except.ok (0, l) : Except Err (Nat × Bits)) else
           match byteswapLoop .lsb0 sizes (8 * sizes.sum)
-              (Py.rangeLen ((a : Int) + (8 * sizes.sum : Nat)) (((if repeat_ then b else a + 8 * sizes.sum : Nat) : Int) + 1) (8 * sizes.sum : Nat))
+              (Py.rangeLen ((a : Int) + (8 * sizes.sum : Nat)) (((if repeat_ then b else min (a + 8 * sizes.sum) b : Nat) : Int) + 1) (8 * sizes.sum : Nat))
               l ((a : Int) + (8 * sizes.sum : Nat)) 0 with
           | .error e => .error e
           | .ok (l', reps) => .ok (reps, l'))
         = (if 8 * sizes.sum = 0 then (Except.ok (0, l.reverse) : Except Err (Nat × Bits)) else
           match byteswapLoop .msb0 sizes (8 * sizes.sum)
-              (Py.rangeLen ((a : Int) + (8 * sizes.sum : Nat)) (((if repeat_ then b else a + 8 * sizes.sum : Nat) : Int) + 1) (8 * sizes.sum : Nat))
+              (Py.rangeLen ((a : Int) + (8 * sizes.sum : Nat)) (((if repeat_ then b else min (a + 8 * sizes.sum) b : Nat) : Int) + 1) (8 * sizes.sum : Nat))
               l.reverse ((a : Int) + (8 * sizes.sum : Nat)) 0 with
           | .error e => .error e
           | .ok (l', reps) => .ok (reps, l')).map fun r => (r.1, r.2.reverse) := by
-      intro sizes hf
+      intro sizes
       by_cases h0 : 8 * sizes.sum = 0
       · simp only [h0, if_true, Except.map, List.reverse_reverse]
       · simp only [h0, if_false]
-        rw [byteswap_core l sizes a b repeat_ hb.2 hf h0]
+        rw [byteswap_core l sizes a b repeat_ hb.2 h0]
         cases byteswapLoop .msb0 sizes (8 * sizes.sum)
-              (Py.rangeLen ((a : Int) + (8 * sizes.sum : Nat)) (((if repeat_ then b else a + 8 * sizes.sum : Nat) : Int) + 1) (8 * sizes.sum : Nat))
+              (Py.rangeLen ((a : Int) + (8 * sizes.sum : Nat)) (((if repeat_ then b else min (a + 8 * sizes.sum) b : Nat) : Int) + 1) (8 * sizes.sum : Nat))
               l.reverse ((a : Int) + (8 * sizes.sum : Nat)) 0 with
         | error e => rfl
         | ok r => rfl
     cases fmt with
-    | none => exact main [(b - a) / 8] (Or.inr (by simp; omega))
+    | none => exact main [(b - a) / 8]
     | some zs =>
       by_cases hneg : (zs.any (· < 0)) = true
       · simp only [hneg, if_true]; rfl
       · simp only [hneg]
         apply main
-        rcases hfit with h1 | h1
-        · exact Or.inl h1
-        · exact Or.inr (h1 a b zs h rfl)
-
 
 theorem fm_range_take {α} (l : List α) (a : Nat) (ha : a ≤ l.length) :
     (List.range a).filterMap (fun i => l[i]?) = l.take a := by
